@@ -677,12 +677,22 @@ def main():
     chk.cov['distinct_nontrivial'] = ok
     chk.cov['obligations'] = paths
     chk.cov['discharged'] = ok
+    from . import extras7
+    for fn_ in ('added_string_models', 'falsy_objects_across_files'):
+        for pr in getattr(extras7, fn_)()[:2]:
+            chk.violation(pr, {'extras7': fn_})
+        chk.cov['traces_validated_against_impl'] += 1
+    chk.cov.setdefault('bounds', {})['concrete_supplements_round7'] = ['added_string_models', 'falsy_objects_across_files']
     return chk.finish('one path per equality pattern between element names and reference texts of a configuration = one '
                       'real multi-file load; the lookup-order clause is a z3 validity query per reference; '
                       'non-trivial = paths that load')
 
 
 def replay(data):
+    if isinstance(data, dict) and data.get('extras7'):
+        from . import extras7
+        pr = getattr(extras7, data['extras7'])()
+        return bool(pr), pr[:2]
     if 'search_path_scenario' in data:
         pr = search_path_scenario()
         return bool(pr), pr[:3]
